@@ -76,6 +76,11 @@ class SymList:
     def _pv_enumerate(self, ex, start=0):
         return SymEnum(self, start)
 
+    def _pv_generic(self, ex):
+        """direct iteration `for x in lst` through a LoopSpec: the generic element"""
+        cond, bind = SymEnum(self, 0)._pv_generic(ex)
+        return cond, (lambda: bind()[1])
+
     def _pv_truth(self, ex):
         return ex.ctx.branch(self.length > 0)
 
